@@ -7,6 +7,7 @@ package main
 // their observed fields; replaying it runs the same events verbatim.
 
 import (
+	"bytes"
 	"fmt"
 	"strings"
 )
@@ -81,6 +82,14 @@ func (g *cliGen) genRequest() *cliReq {
 		method: []byte([]string{"GET", "POST", "PUT", "HEAD", "DELETE"}[r.intn(5)]),
 		path:   []byte(cliPaths[r.intn(len(cliPaths))]),
 		scheme: []byte([]string{"https", "http"}[r.intn(2)]),
+	}
+	switch r.intn(16) {
+	case 0:
+		// a stored field larger than the whole default table: RFC 7541 4.4, the insertion empties the table
+		spec.path = append([]byte("/big/"), bytes.Repeat([]byte("0123456789abcdef"), 260)...)
+	case 1, 2:
+		// larger than a table the server has shrunk to 100 octets
+		spec.path = append([]byte("/longer/"), bytes.Repeat([]byte("ab"), 30+r.intn(40))...)
 	}
 	for i := r.intn(5); i > 0; i-- {
 		spec.fields = append(spec.fields, [2]string{cliReqNames[r.intn(len(cliReqNames))], valVocab[1+r.intn(len(valVocab)-1)]})
